@@ -89,12 +89,9 @@ func (b *BufferedBus[T]) Add(t T, currentCycle int) {
 }
 
 func (b *BufferedBus[T]) Revert(t T, currentCycle int) {
-	b.buffer = append([]BufferEntry[T]{
-		{
-			availableFromCycle: currentCycle,
-			t:                  t,
-		},
-	}, b.buffer...)
+	// The element was taken from the head of the queue: it goes back there, so
+	// that it is the next one delivered
+	b.queue = append([]T{t}, b.queue...)
 }
 
 func (b *BufferedBus[T]) DeleteLast() {
